@@ -118,6 +118,13 @@ MC_INV = [
     # every member sits in exactly one slot: counting form (no quantifier alternation)
     "len(%s) == ite(self._bnode_constraint is not None, 1, 0) + ite(self._iri_constraint is not None, 1, 0) + len(%s)" % (CS, SHL),
 ]
+# what survives the promotion of one member to 'dominant' (membership facts do not)
+MC_WEAK = [
+    "self._shape_constraints is not None",
+    "implies(self._bnode_constraint is not None, has_class(some(self._bnode_constraint), 'Statement') and some(self._bnode_constraint)._serializer_object is not None and some(self._bnode_constraint)._st_type == 'BNode')",
+    "implies(self._iri_constraint is not None, has_class(some(self._iri_constraint), 'Statement') and some(self._iri_constraint)._serializer_object is not None and some(self._iri_constraint)._st_type == 'IRI')",
+    "forall(Int, lambda j: implies(0 <= j and j < len(%s), has_class(%s[j], 'Statement') and %s[j]._serializer_object is not None))" % (SHL, SHL, SHL),
+]
 FRAME_FIGURES = ["heap_eq('Statement._n_occurences')", "heap_eq('Statement._st_type')", "heap_eq('Statement._st_property')"]
 
 contract(MC + ".add_constraint", params={"statement": Statement},
@@ -134,16 +141,19 @@ contract(MC + ".add_constraint", params={"statement": Statement},
 contract(MC + "._promote_to_dominant", params={"statement": Statement}, requires=[IN(CS, "statement")],
     ensures=["self._dominant_constraint == statement", "len(%s) == len(old(%s)) - 1" % (CS, CS)], raises=[],
     modifies=["MC._dominant_constraint[self]", "MC._constraints[self]"], props=["C04"])
-GROUP_PRE = MC_INV + ["len(%s) >= 2" % CS, "self._statement_serializer_factory is not None"]
+SAME_KEY = "forall(Int, lambda j: implies(0 <= j and j < len(%s), %s[j]._st_property == %s[0]._st_property and %s[j]._is_inverse == %s[0]._is_inverse))" % (CS, CS, CS, CS, CS)
+GROUP_PRE = MC_INV + ["len(%s) >= 2" % CS, "self._statement_serializer_factory is not None", SAME_KEY]
 contract(MC + "._bnode_merging_strategy", params={},
     requires=GROUP_PRE + ["self._bnode_constraint is not None"],
-    ensures=["self._dominant_constraint is not None"], raises=[],
-    modifies=["MC._dominant_constraint[self]", "MC._constraints[self]", "alloc"], props=["C04", "C01"],
+    ensures=["self._dominant_constraint is not None", "has_class(some(self._dominant_constraint), 'Statement')", "some(self._dominant_constraint)._serializer_object is not None",
+             "some(self._dominant_constraint)._st_property == old(self._constraints[0]._st_property)", "some(self._dominant_constraint)._is_inverse == old(self._constraints[0]._is_inverse)"] + MC_WEAK, raises=[],
+    modifies=["MC._dominant_constraint[self]", "MC._constraints[self]", "alloc"], props=["C04", "C01", "C02"],
     note="IRI and BNode values with or without typed values: a dominant constraint is always chosen, nothing is dereferenced through None")
 contract(MC + "._no_bnode_merging_strategy", params={},
     requires=GROUP_PRE + ["self._bnode_constraint is None", "self._shape_constraints is not None"],
-    ensures=["self._dominant_constraint is not None"], raises=[],
-    modifies=["MC._dominant_constraint[self]", "MC._constraints[self]"], props=["C04", "C01"],
+    ensures=["self._dominant_constraint is not None", "has_class(some(self._dominant_constraint), 'Statement')", "some(self._dominant_constraint)._serializer_object is not None",
+             "some(self._dominant_constraint)._st_property == old(self._constraints[0]._st_property)", "some(self._dominant_constraint)._is_inverse == old(self._constraints[0]._is_inverse)"] + MC_WEAK, raises=[],
+    modifies=["MC._dominant_constraint[self]", "MC._constraints[self]"], props=["C04", "C01", "C02"],
     note="also when the threshold removed the plain IRI kind and only shape references are left")
 
 contract(MC + ".__init__", params={"initial_constraint": Opt(Statement), "statement_serializer_factory": Opt(SerFactory), "namespaces_dict": Opt(NSD)},
@@ -234,3 +244,42 @@ contract(ASS + "._decide_best_statement_with_cardinalities_in_comments", params=
                              "forall(Statement, lambda r: implies(r != some(result), r._comments == pre(r._comments)))",
                              "list_eq(_seq2, %s)" % MCL]}},
     props=["C03", "C01", "C09", "C02"], note="the chosen statement is a member of its group; '+' wins under keep_less_specific unless it is useless")
+
+# ---- merging the non-literal kinds of one property (IRI / BNode / shape references) --------------------------------------------
+# sorting keeps the representation invariant when it held before (stage 2); stage 1 uses the group as a plain list
+INV_CONJ = " and ".join("(%s)" % x for x in MC_INV)
+CONTRACTS[MC + ".sort"].ensures += ["implies(old(%s), %s)" % (INV_CONJ, INV_CONJ),
+                                    "self._bnode_constraint == old(self._bnode_constraint)", "self._iri_constraint == old(self._iri_constraint)"]
+DOM = "some(self._dominant_constraint)"
+OLD_MEMBER = IN("old(%s)" % CS, DOM)
+NEW_OBJ = "(%s >= old(alloc()))" % DOM
+contract(MC + "._feed_dominant_constraint_with_comments", params={},
+    requires=MC_WEAK + ["self._dominant_constraint is not None", "self._namespaces_dict is not None", "%s._serializer_object is not None" % DOM if False else "True"],
+    ensures=["heap_eq('Statement._cardinality')", "heap_eq('Statement._probability')", "heap_eq('Statement._n_occurences')", "heap_eq('Statement._st_type')",
+             "forall(Statement, lambda r: implies(r != %s, r._comments == pre(r._comments)))" % DOM],
+    raises=[], modifies=["Statement._comments"],
+    loops={0: {"invariant": ["heap_eq('Statement._cardinality')", "heap_eq('Statement._probability')", "heap_eq('Statement._n_occurences')", "heap_eq('Statement._st_type')",
+                             "forall(Statement, lambda r: implies(r != %s, r._comments == pre(r._comments)))" % DOM]}},
+    props=["C04", "C01"], note="alternatives become comments of the dominant constraint; no figure is written")
+contract(MC + "._tune_dominant_constraint_wrt_or_config", params={},
+    requires=MC_WEAK + ["self._dominant_constraint is not None", "has_class(%s, 'Statement')" % DOM, "%s._serializer_object is not None" % DOM,
+                        "self._statement_serializer_factory is not None"],
+    ensures=["self._dominant_constraint is not None",
+             "implies(self._disable_or, self._dominant_constraint == old(self._dominant_constraint))",
+             # a disjunction keeps property, cardinality and figures of the dominant constraint
+             "%s._st_property == old(%s._st_property) and %s._cardinality == old(%s._cardinality) and %s._n_occurences == old(%s._n_occurences) and %s._probability == old(%s._probability)" % ((DOM,) * 8)],
+    raises=[], modifies=["MC._dominant_constraint[self]", "alloc"], props=["C04", "C13"], ghost={"__locals__": {"st_types": List(Opt(Kind))}},
+    note="disable_or_statements=False only turns the single non-literal constraint into a disjunction over the same alternatives")
+
+contract(MC + "._merge_content_in_single_statement", params={},
+    requires=MC_WEAK + ["self._dominant_constraint is not None", "has_class(%s, 'Statement')" % DOM, "%s._serializer_object is not None" % DOM,
+                        "self._statement_serializer_factory is not None", "self._namespaces_dict is not None"],
+    ensures=["self._dominant_constraint is not None",
+             "%s._st_property == old(%s._st_property) and %s._cardinality == old(%s._cardinality) and %s._n_occurences == old(%s._n_occurences)" % ((DOM,) * 6)],
+    raises=[], modifies=["MC._dominant_constraint[self]", "alloc", "Statement._comments"], props=["C04", "C02"])
+contract(MC + ".merge_group", params={"disable_or": Bool, "redundant_or_allowed": Bool}, returns=Statement,
+    requires=GROUP_PRE + ["self._namespaces_dict is not None"],
+    ensures=["result._st_property == old(self._constraints[0]._st_property)"],
+    raises=[], modifies=["MC._dominant_constraint[self]", "MC._constraints[self]", "MC._shape_constraints[self]", "MC._disable_or[self]",
+                         "MC._redundant_or_enabled[self]", "alloc", "Statement._comments"],
+    props=["C04", "C02"], note="the merge of the node kinds of one property never fails and yields one constraint for that property")
